@@ -172,11 +172,66 @@ pub fn check_protocol(seq: &[u8], w: usize, m: usize, with_kmers: bool) -> Optio
         if it.next().is_some() || it.next().is_some() {
             return Some(("minimiser.protocol.after_end".to_string(), "an exhausted iterator yielded another run".to_string()));
         }
+        // positional adaptors
+        let n3 = exp.len() / 3;
+        if fresh().nth(n3) != exp.get(n3).copied() {
+            return Some(("minimiser.protocol.nth".to_string(), format!("nth({}) differs", n3)));
+        }
+        let sk: Vec<(u64, usize, usize)> = fresh().skip(1).step_by(2).collect();
+        let want: Vec<(u64, usize, usize)> = exp.iter().skip(1).step_by(2).copied().collect();
+        if sk != want {
+            return Some(("minimiser.protocol.skip_step".to_string(), "skip(1).step_by(2) differs".to_string()));
+        }
+        // several generators alive on one thread and advanced in turn (each must behave as if it were alone):
+        // the same sequence with a different window, and a shifted copy of the sequence with the same parameters
+        let w2 = if w + 1 <= 31 { w + 1 } else { w };
+        let seq2: Vec<u8> = seq.iter().rev().copied().collect();
+        let exp_a = exp.clone();
+        let exp_b = model::minimiser_runs(seq, w2, m);
+        let exp_c = model::minimiser_runs(&seq2, w, m);
+        let mut a = mk_gen(seq, w, m, with_kmers);
+        let mut b = mk_gen(seq, w2, m, with_kmers);
+        let mut c = mk_gen(&seq2, w, m, with_kmers);
+        let (mut ga, mut gb, mut gc) = (Vec::new(), Vec::new(), Vec::new());
+        let (mut da, mut db, mut dc) = (false, false, false);
+        let mut turn = 0usize;
+        while !(da && db && dc) {
+            match turn % 3 {
+                0 if !da => match a.next() {
+                    Some(x) => ga.push(x),
+                    None => da = true,
+                },
+                1 if !db => match b.next() {
+                    Some(x) => gb.push(x),
+                    None => db = true,
+                },
+                2 if !dc => match c.next() {
+                    Some(x) => gc.push(x),
+                    None => dc = true,
+                },
+                _ => {}
+            }
+            turn += 1;
+        }
+        if ga != exp_a || gb != exp_b || gc != exp_c {
+            return Some((
+                "minimiser.protocol.interleaved_generators".to_string(),
+                format!("three generators advanced in turn on one thread: runs {}/{}/{} vs {}/{}/{} when each runs alone", ga.len(), gb.len(), gc.len(), exp_a.len(), exp_b.len(), exp_c.len()),
+            ));
+        }
         None
     });
     match r {
         Ok(v) => v.map(|(a, b)| (a, b, Json::Null)),
         Err(p) => Some((panic_sig(&p), format!("iterator panicked under an adaptor: {}", p), Json::Null)),
+    }
+}
+
+fn mk_gen<'a>(s: &'a [u8], w: usize, m: usize, with_kmers: bool) -> Box<dyn Iterator<Item = (u64, usize, usize)> + 'a> {
+    if with_kmers {
+        Box::new(KmerMinimiserGenerator::new(s, w, m).map(|x| (x.0, x.1, x.2)))
+    } else {
+        Box::new(MinimiserGenerator::new(s, w, m))
     }
 }
 
